@@ -379,7 +379,7 @@ class LP_Solver:
                 lowBound = 0, 
                 upBound = self.model.num_students * self.model.num_projects *
                   student_multiplier + self.model.num_students *
-                  self.model.num_lecturers * lecturer_multiplier,
+                  self.model.num_students * lecturer_multiplier,
                 cat = "Integer")
         sum_costs_exp = LpAffineExpression()
         for pair in list(chain.from_iterable(self.model.pairs)):
